@@ -46,7 +46,8 @@ enum FaultKind : int {
   F_PREEMPT = 0,  // forced switch at (task, op, off) to a seeded target
   F_STALL = 1,    // task frozen at (task, op, off) until `arg` further operations completed elsewhere
   F_LATE = 2,     // task not eligible before global step `arg`
-  F_NKINDS = 3
+  F_CLOCK = 3,    // the simulated clock jumps forward by `arg` nanoseconds when (task, op, off) is reached
+  F_NKINDS = 4
 };
 
 // A scheduling point is named by (task, operation index within the task, event offset inside it),
